@@ -204,6 +204,38 @@ def _run(ctx):
                     r2.site("explicit check of assets[%d] at %s" % (k, where))
                 else:
                     r2.fail("C09.R2:arg-origin", fn.path, where, "check applied to %s, not to a declared asset: unrecognised-idiom" % sorted(a0))
+        # closure form: `assets.iter().try_for_each(|a| a.check(&info))?`
+        if not calls:
+            for cf in [g for g in P.fns.values() if g.kind == "closure" and g.parent == fn.path and g.body is not None]:
+                ccalls = pr.calls_to(cf, chk)
+                if len(ccalls) != 1:
+                    continue
+                site = P.closure_site(cf.path)
+                cexits = common.exit_sites(P, cf)
+                cv = P.val_call(cf, cf.body, ccalls[0])
+                # the closure returns the check's result unchanged, for its element, with the handler's info
+                forwards = len(cexits) == 1 and cexits[0][3] == cv and not common.control_conditions(P, cf, ccalls[0])
+                a0 = set(ctx.roots(cv[4][0]))
+                a1 = set(ctx.roots(cv[4][1]))
+                tfe = [(b, P.val_call(fn, fn.body, b)) for b, p, fr, t in P.calls(fn) if p and common.last_seg(p) == "try_for_each" and "Iterator" in p]
+                tfe = [(b, v) for b, v in tfe if v[4][1][0] == "agg" and v[4][1][2] == cf.path]
+                if not forwards or a0 != {P_(cf, 1)} or a1 != {P_(fn, info)} or len(tfe) != 1:
+                    r2.fail("C09.R2:closure-shape", cf.path, cf.span, "the funds check sits in a closure that is not `try_for_each(|a| a.check(&info))` over the declared assets: unrecognised-idiom")
+                    continue
+                tb, tv = tfe[0]
+                where = common.span_of_block_term(fn, tb)
+                ads, kind, src = common.iter_chain(tv[4][0])
+                if ads or kind not in ("iter", "into_iter") or set(ctx.roots(src)) != {P_(fn, assets_i)}:
+                    r2.fail("C09.R2:loop-shape", fn.path, where, "the checking iteration does not visit every declared asset: adaptors %s over %s (%s)" % ([a for a, _ in ads], sorted(ctx.roots(src)), kind))
+                    continue
+                pg = common.propagated(P, fn, tb)
+                if pg is None or not common.fail_edge_only_errors(P, fn, pg[2])[0]:
+                    r2.fail("C09.R2:not-propagated", fn.path, where, "result of the native-funds check is not inspected (error dropped)")
+                    continue
+                covered |= {0, 1}
+                cont_edges.append(pg[1])
+                exempt |= {b for b in range(len(fn.body.blocks)) if fn.body.block_dominates(b, pg[0])}
+                r2.site("try_for_each over all declared assets at %s, error propagated" % where)
         if covered != {0, 1} and r2.status == "pass":
             r2.fail("C09.R2:coverage", fn.path, fn.span, "native-funds check covers declared assets %s, expected both" % sorted(covered))
         if cont_edges and r2.status == "pass":
